@@ -154,6 +154,7 @@ class Obj:
         s.name, s.size, s.init, s.kind = name, size, init, kind
         s.mem = {}; s.freed = False; s.zero = False
 class Violation(Exception): pass
+class IterTruncated(BaseException): pass       # footprint mode: one abstract parallel iteration exceeded its instruction budget
 
 def is_sym(v): return isinstance(v, z3.ExprRef)
 def fr(v):
@@ -168,7 +169,7 @@ PI_LITERALS = {Fraction(_PIf): PIq, Fraction(_PIf / 180.0): PIq / 180, Fraction(
 class TeamBarrier(Exception): pass
 class Interp:
     def __init__(s, mod, ex=None, float_mode="real", max_steps=2_000_000):
-        s.mod, s.ex = mod, (ex or EX); s.steps = 0; s.max_steps = max_steps
+        s.mod, s.ex = mod, (ex or EX); s.steps = 0; s.max_steps = max_steps; s.foot_start = None; s.foot_limit = 6000; s.foot_truncated = False
         s.events = []      # (kind, msg, line)
         s.nobj = 0; s.fresh_n = 0
         s.trig = {}; s.accesses = None; s.call_hooks = {}; s.lastframe = {}; s.frames = {}; s.stack = []; s.omp_mode = 'seq'; s.in_reduction = False; s.cur_tid = 0; s.num_threads = 1; s._disp = 0; s.store_hooks = {}; s.call_replace = {}
@@ -482,6 +483,11 @@ class Interp:
                 mylb = lb + k * blk; myub = min(ub, mylb + blk - 1)
                 s.store(plb, "i32", mylb, ins); s.store(pub, "i32", myub, ins)
                 s.store(pstride, "i32", 1 << 30, ins); s.store(plast, "i32", int(myub == ub and mylb <= myub), ins); return None
+            # footprint mode: the abstract iteration lies inside the iteration space the outlined code announced (lb .. ub as stored before the call)
+            lb0 = s.load(plb, "i32", ins); ub0 = s.load(pub, "i32", ins); k = s.omp_iter
+            inside = z3.And(k >= (lb0 if is_sym(lb0) else z3.IntVal(lb0)), k <= (ub0 if is_sym(ub0) else z3.IntVal(ub0)))
+            if not s.ex.feasible([inside]): raise PathEnd("abstract iteration outside the iteration space")
+            s.ex.assume(inside)
             s.store(plb, "i32", s.omp_iter, ins); s.store(pub, "i32", s.omp_iter, ins)
             s.store(pstride, "i32", 1 << 30, ins); s.store(plast, "i32", 0, ins); return None
         if name == "__kmpc_for_static_fini": return None
@@ -516,10 +522,16 @@ class Interp:
                 finally: s.omp_mode, s.cur_tid, s.num_threads = old
                 return None
             # footprint mode: two abstract iterations kA != kB of the same loop, each from the same pre-state
-            s.foot = []
+            s.foot = []; s.foot_truncated = False
             for tag, k in zip("AB", s.omp_iters):
                 s.omp_iter = k; s.accesses = []; s.in_reduction = False; s._disp = 0
-                s.call(fn, [cell(0), cell(0)] + list(cap))
+                s.foot_start = s.steps; st0 = list(s.stack)
+                try: s.call(fn, [cell(0), cell(0)] + list(cap))
+                except IterTruncated:
+                    # bounded unwinding of one abstract iteration: the accesses seen so far are real accesses of that iteration (a conflict among them is a
+                    # conflict); the footprint is incomplete, so "no conflict" is then inconclusive
+                    s.foot_truncated = True; s.stack[:] = st0
+                finally: s.foot_start = None
                 s.foot.append(list(s.accesses))
             s.accesses = None
             raise PathEnd("footprint")
@@ -556,6 +568,7 @@ class Interp:
             for ins in f.blocks[blk]:
                 s.steps += 1
                 if s.steps > s.max_steps: raise RuntimeError("unwinding bound exceeded")
+                if s.foot_start is not None and s.steps - s.foot_start > s.foot_limit: raise IterTruncated()
                 op, t = ins.op, ins.text
                 if op == "alloca":
                     m = re.match(r"alloca (.*)", t); ty = parse_type(m.group(1))[0]
@@ -749,7 +762,7 @@ def symbolic_obj(it, name, kind="shared"):
     """unbounded array with symbolic (UF) content: loads are rd_<name>(offset) overridden by the write log"""
     o = it.newobj(name, 1 << 40, None, kind); o.symbolic = True; o.wlog = []; return o
 
-def footprint(mod, fname, setup, timeout_ms=20000, interp=None):
+def footprint(mod, fname, setup, timeout_ms=20000, interp=None, iter_steps=None):
     """Data-race / loop-carried-dependence query for the `#pragma omp parallel for` inside fname (IR built with -fopenmp).
     setup(it) -> args (arrays should be symbolic_obj, sizes symbolic Ints; it.omp_iters = (kA, kB) with hypotheses).
     Returns (npaths, nqueries, conflicts) where a conflict is a pair of accesses of two DIFFERENT iterations to overlapping
@@ -758,15 +771,23 @@ def footprint(mod, fname, setup, timeout_ms=20000, interp=None):
     cell = {}
     def run():
         it = (interp or Interp)(mod); it.omp_mode = "foot"; cell["it"] = it
+        if iter_steps: it.foot_limit = iter_steps
         args = setup(it)
         it.call(fname, args)
-    npaths = nq = 0; conflicts = []; shared = set()
-    for res, pc, hyp, taken, status in symcore.explore(run, timeout_ms=timeout_ms, budget_s=float(os.environ.get("VERIF_FOOT_BUDGET", "300"))):
+    npaths = nq = 0; conflicts = []; shared = set(); footprint.truncated = 0
+    def paths():
+        try:
+            for x in symcore.explore(run, timeout_ms=timeout_ms, budget_s=float(os.environ.get("VERIF_FOOT_BUDGET", "300"))): yield x
+        except Inconclusive:
+            if not conflicts: raise          # nothing found in the explored part: the query is undecided
+            footprint.truncated += 1         # a conflict already found on an explored path stays a conflict (it is replayed on the real build by the caller)
+    for res, pc, hyp, taken, status in paths():
         it = cell["it"]
         if status != "end:footprint":
             if status == "ok": conflicts.append(("no parallel region reached", None, None)); 
             continue
         npaths += 1
+        if it.foot_truncated: footprint.truncated += 1
         kA, kB = it.omp_iters
         A, B = it.foot
         for (oa, offa, na, wa, ia, ra) in A:
